@@ -145,6 +145,7 @@ func rulesC05(c *Ctx) {
 	delimitedC05(c)
 	readVerbatimRule(c, "C05.readverbatim")
 	stringEndRule(c, "C05.strend")
+	eofMarkerRule(c, "C05.eofmarker")
 	// ---- sub-scanner entry matches what the sub-scanner accepts ----
 	c.Rule("C05.idententry", "Scan hands a rune to the identifier scanner exactly when isIdentFirstChar accepts it (or it is a double quote): for any other rune the identifier scanner reads nothing, the token is empty and the scan never gets past that rune")
 	identEntryRule(c, "C05.idententry")
@@ -1105,4 +1106,64 @@ func stringEndRule(c *Ctx, rule string) {
 		}
 	}
 	c.Floor(rule, n, 1)
+}
+
+// eofMarkerRule: the rune the reader substitutes at end of input is not a
+// rune the input can contain.
+func eofMarkerRule(c *Ctx, rule string) {
+	p := c.P
+	c.Rule(rule, "the end marker reader.read buffers when the underlying reader reports an error is outside the range of runes ReadRune can deliver (negative or above U+10FFFF): a marker that is a legal character (U+0000, say) makes that character in the text end the scan, and everything after it is never tokenised")
+	f := p.SSAFunc(p.Method("reader", "read"))
+	if f == nil {
+		c.Unk(rule, "(*reader).read", 0, "anchor not found")
+		return
+	}
+	n := 0
+	for _, b := range f.Blocks {
+		for _, in := range b.Instrs {
+			phi, ok := in.(*ssa.Phi)
+			if !ok || !isIntegerType(phi.Type()) {
+				continue
+			}
+			for i, e := range phi.Edges {
+				k, ok := e.(*ssa.Const)
+				if !ok || k.Value == nil {
+					continue
+				}
+				// the edge taken when ReadRune failed
+				pred := b.Preds[i]
+				var guard *ssa.If
+				var onTrue bool
+				if ifi, ok := pred.Instrs[len(pred.Instrs)-1].(*ssa.If); ok {
+					guard, onTrue = ifi, pred.Succs[0] == b
+				} else if len(pred.Preds) == 1 {
+					pp := pred.Preds[0]
+					if ifi, ok := pp.Instrs[len(pp.Instrs)-1].(*ssa.If); ok {
+						guard, onTrue = ifi, pp.Succs[0] == pred
+					}
+				}
+				if guard == nil {
+					continue
+				}
+				bo, ok := guard.Cond.(*ssa.BinOp)
+				if !ok || !isNilConst(bo.Y) || !types.Identical(bo.X.Type(), types.Universe.Lookup("error").Type()) {
+					continue
+				}
+				if (bo.Op == token.NEQ) != onTrue {
+					continue
+				}
+				n++
+				v, _ := constant.Int64Val(constant.ToInt(k.Value))
+				key := "(*reader).read: end marker"
+				if v < 0 || v > 0x10FFFF {
+					c.OK(rule, key, phi.Pos(), fmt.Sprintf("marker %d is not a character", v))
+				} else {
+					c.Bad(rule, key, phi.Pos(), fmt.Sprintf("the end marker is U+%04X, a character the text may contain: the scan ends there and the rest of the text is skipped", v))
+				}
+			}
+		}
+	}
+	if n == 0 {
+		c.Unk(rule, "(*reader).read: end marker", f.Pos(), "no constant substituted on the error branch of ReadRune was found")
+	}
 }
